@@ -15,7 +15,7 @@ TH = VERIF / 'coq' / 'theories'
 NAMES_ARGS = 'Names.parse Names.fmt'
 # property -> (imports, header comment, [(theorem name, lemma expression, statement definitions to unfold)])
 TABLE = {
- 'C01': ('Base Digraph Names Graph GraphObs GraphInv GraphInvProofs Spec SpecProofs Extracted SourceFacts SFMutators',
+ 'C01': ('Base Digraph Names Graph GraphObs GraphInv GraphInvProofs Spec SpecProofs Extracted SourceFacts SFMutators PyRtMut PyRtAdd MutGenAdd MutGenAddProofs',
          'C01 — mutations behave as an abstract mixed graph: one typed edge per node pair.\n'
          '    The concrete model (Graph.v, validated against the real classes on every run) keeps the two mirrored edge\n'
          '    indexes, the per-node directed lists and the time-series lookup indexes; Inv says they all describe ONE mixed\n'
@@ -33,8 +33,13 @@ TABLE = {
           ('reference_model_cycle_clause', '@s_closes_cycle_acyclic Names.parse', []),
           ('every_reference_state_is_reachable_as_a_concrete_state', '@abs_surjective Names.parse', []),
           ('mutator_defaults_in_source_are_the_modelled_ones', 'mutator_defaults', []),
+          ('translated_add_edge_equals_the_model_result_and_leftover_state', 'gen_add_edge_eq', []),
+          ('translated_add_node_by_identifier_equals_the_model', 'gen_add_node_id_eq', []),
+          ('translated_add_node_by_identifier_given_a_node_object_equals_the_model', 'gen_add_node_id_nodeobj_eq', []),
+          ('translated_add_node_given_a_node_object_equals_the_model', 'gen_add_node_obj_eq', []),
+          ('translated_add_node_argument_asserts', 'gen_add_node_asserts', []),
           ]),
- 'C02': ('Base Digraph DigraphProofs Names Graph GraphObs GraphInv GraphAcyclicProofs Extracted SourceFacts SFValidate Serial Matrix Skeleton TSGraph LagMatrix CtorAcyclicProofs CtorAcyclicLag PyRt PyRtLoop Queries TraversalGenLemmas TraversalGenCyc TraversalGenCycProofs',
+ 'C02': ('Base Digraph DigraphProofs Names Graph GraphObs GraphInv GraphAcyclicProofs Extracted SourceFacts SFValidate Serial Matrix Skeleton TSGraph LagMatrix CtorAcyclicProofs CtorAcyclicLag PyRt PyRtLoop Queries TraversalGenLemmas TraversalGenCyc TraversalGenCycProofs GraphInvProofs PyRtMut PyRtAdd MutGenAdd MutGenAddProofs',
          'C02 — validated graphs never hold a directed cycle; is_dag() reports exactly that.',
          [('cycle_check_is_exact_and_terminates', 'cycle_check Names.parse', ['cycle_check_statement']),
           ('validated_step_preserves_acyclicity', 'acyclic_step Names.parse Names.fmt', ['acyclic_step_statement']),
@@ -66,6 +71,12 @@ TABLE = {
           ('translated_cycle_check_raises_iff_the_node_is_on_a_directed_cycle', '@gen_assert_no_self_dependency_spec', []),
           ('translated_cycle_check_unknown_identifier_is_a_key_error', '@gen_assert_no_self_dependency_missing', []),
           ('translated_cycle_check_on_every_invariant_graph_state', 'gen_assert_no_self_dependency_cycle_check', []),
+          ('translated_set_edge_equals_the_model_result_and_leftover_state', 'gen__set_edge_eq', []),
+          ('translated_add_edge_equals_the_model_result_and_leftover_state', 'gen_add_edge_eq', []),
+          ('translated_add_edge_given_an_edge_object_equals_the_model', 'gen_add_edge_edgeobj_eq', []),
+          ('translated_validated_add_edge_preserves_acyclicity', 'gen_add_edge_acyclic', []),
+          ('translated_validated_add_edge_refused_exactly_when_it_closes_a_cycle', 'gen_add_edge_cyclic_iff', []),
+          ('translated_failing_add_edge_leaves_the_state_literally_unchanged', 'gen_add_edge_failed_exact', []),
           ]),
  'C03': ('Base Digraph Names Graph GraphObs GraphInv GraphAtomicLemmas GraphAtomicProofs Extracted SourceFacts SFMutators PyRtMut MutGenRollback MutGenRollbackProofs',
          'C03 — a rejected mutation leaves the graph exactly as it was.\n'
@@ -481,8 +492,8 @@ TABLE = {
 }
 
 
-BASE_SPLIT = ('C02', 'C03', 'C10', 'C14', 'C15', 'C16', 'C17', 'C18', 'C19', 'C20')
-GEN_PREFIXES = ('PyRtTS', 'TSGen', 'IdentifyGen', 'TraversalGen', 'PyRtLoop', 'PyRtMut', 'MutGen')
+BASE_SPLIT = ('C01', 'C02', 'C03', 'C10', 'C14', 'C15', 'C16', 'C17', 'C18', 'C19', 'C20')
+GEN_PREFIXES = ('PyRtTS', 'TSGen', 'IdentifyGen', 'TraversalGen', 'PyRtLoop', 'PyRtMut', 'PyRtAdd', 'MutGen')
 
 
 def coq_type(imports, expr, unfold):
